@@ -75,6 +75,11 @@ static void check_state(Model& M, const char* after, const std::map<int,unsigned
             if (!err.empty()) violation("state-damaged","after %s: register r%d: %s", after, r, err.c_str());
         }
     }
+    // the operation registry mentions live forests only ("destroying a forest destroys the operations that mention it")
+    for (unsigned i=0; i<operation::op_list.size(); i++) if (operation* op = operation::op_list[i]) {
+        for (unsigned j=0; j<op->FList.size(); j++) if (!forest::getForestWithID(op->FList[j])) {
+            violation("stale-operation","after %s: operation #%u '%s' is still registered although forest id %u, which it mentions, was destroyed", after, i, op->getName(), op->FList[j]); break; }
+    }
     for (int f=0;f<3;f++) if (M.F[f]) {
         Kind k = kind_parse(KN[M.fkind[f]]);
         std::string a = audit_forest(M.F[f],k);
@@ -165,6 +170,10 @@ static void list_units(const std::string& tier0)
     int depth = th ? (asan ? 7 : 9) : (asan ? 6 : 7);
     // the first symbol is always INIT; split by the 2nd and 3rd choices for parallelism
     for (int s=0;s<16;s++) printf("depth=%d,slice=%d,slices=16\n", depth, s);
+    // histories that start from a populated state (two forests of one domain, an edge in each): INIT NEWDOM NEWFOREST NEWFOREST BUILD BUILD,
+    // then every continuation up to the depth; prefix=1: two set forests (bool, int), prefix=2: in the larger shape
+    int pd = th ? (asan ? 5 : 6) : (asan ? 4 : 5);
+    for (int p=1;p<=2;p++) for (int s=0;s<8;s++) printf("prefix=%d,depth=%d,slice=%d,slices=8\n", p, pd, s);
 }
 
 static void run_unit(const std::map<std::string,std::string>& spec)
@@ -201,6 +210,13 @@ static void run_unit(const std::map<std::string,std::string>& spec)
         std::vector<Sym> en; enabled(M, en);
         for (const Sym& y : en) { hist.push_back(y); dfs(apply_model(M,y)); hist.pop_back(); }
     };
-    Model M0; dfs(M0);
+    Model M0;
+    int prefix=(int)spec_int(spec,"prefix",0);
+    if (prefix) {
+        int sh = prefix==2 ? 1 : 0;
+        for (const Sym& y : std::vector<Sym>{{Y_INIT,0,0},{Y_NEWDOM,sh,0},{Y_NEWFOREST,0,0},{Y_NEWFOREST,0,1},{Y_BUILD,0,0},{Y_BUILD,1,1}}) { hist.push_back(y); M0 = apply_model(M0,y); }
+        depth += (int)hist.size();
+    }
+    dfs(M0);
 }
 int main(int argc, char** argv) { return std_main(argc, argv, list_units, run_unit); }
